@@ -559,8 +559,15 @@ __gmp_doprnt (const struct doprnt_funs_t *funs, void *data,
                 }
               else
                 {
-                  /* don't allow negative precision */
-                  param.prec = MAX (0, n);
+                  /* C99: a negative precision argument is taken as if the
+                     precision were omitted */
+                  if (n < 0)
+                    {
+                      param.prec = 6;
+                      seen_precision = 0;
+                    }
+                  else
+                    param.prec = n;
                 }
             }
             break;
